@@ -387,7 +387,10 @@ theorem inv_work_wait (c : Cfg) (ar aq : Nat) (s : S) (h : Inv c ar aq s) (hrun 
     refine ⟨k0, k1, k2, k3, k4, k5, k6, k7_intro hsr hdir, ?_, k9, k10, k11, k12, k13, k14, ?_, ?_, ?_, ?_, ?_, k20, k21, k22, ?_, k24, k25, ?_, ?_, ?_, ?_, ?_, k31, ?_, (fun hh => absurd hh (by simp [hcl]))⟩
     · intro _; exact ⟨(k8 hcl).1, Or.inr (Or.inl (by simp [hp, Phase.next, upPhase]))⟩
     · intro _ _
-      refine ⟨h27.2, h27.1, hur, Or.inr hurr, ?_, ?_, ?_⟩
+      refine ⟨?_, h27.1, fun hh => by simp [hur] at hh, Or.inr hurr, ?_, ?_, ?_⟩
+      · rcases h27.2 with h0 | h1
+        · exact Or.inl h0
+        · exact Or.inr ⟨hurr, h1⟩
       · simp [hp, Phase.next, hrst]
       · intro hh; simp [hp, Phase.next] at hh
       · intro hh; simp [hp, Phase.next] at hh
